@@ -341,6 +341,17 @@ def extract(repo):
                     and re.sub(r"\s+", "", assigns[1]) == "strlen(v->name->symbol.name)"
                     and bool(re.search(r"if\s*\(\s*strlen\(\s*v->name->symbol\.name\s*\)\s*>\s*max_indent\s*\)", head)))
 
+    # ---- scanner tables: keyword table of lexact.c, operator/punctuation rules of expscan.l
+    lx = open(os.path.join(repo, "src/express/lexact.c")).read()
+    kwtab = re.findall(r'\{\s*"([A-Z_0-9]+)"\s*,\s*(TOK_\w+)\s*\}', lx)
+    if len(kwtab) < 100:
+        raise ValueError(f"keyword table of lexact.c not found ({len(kwtab)} entries)")
+    sl = open(os.path.join(repo, "src/express/expscan.l")).read()
+    symtab = re.findall(r'^"((?:[^"\\]|\\.)+)"\s*\{\s*return\s+(TOK_\w+)\s*;\s*\}', sl, re.M)
+    symtab = [(bytes(a, "ascii").decode("unicode_escape"), b) for a, b in symtab]
+    if len(symtab) < 25:
+        raise ValueError(f"operator rules of expscan.l not found ({len(symtab)})")
+
     L = []
     L.append("-- GENERATED by tools/extract.d/expprec.py from src/express/expparse.y (+ generated/expparse.c), src/express/expr.c,")
     L.append("-- src/exppp/pretty_expr.c, pretty_expr.h, pretty_where.c, exppp.c")
@@ -384,6 +395,10 @@ def extract(repo):
     L.append("def remarkSites : List (String × String × Bool) := " + _llist([f"({_lstr(a)}, {_lstr(b)}, {'true' if c else 'false'})" for a, b, c in remark_sites]))
     L.append("/-- `SCOPElocals_out` sizes the name column by the longest local name (so `if( !max_indent ) return;` means: no locals) -/")
     L.append(f"def localsWidthIsNameLength : Bool := {'true' if locals_plain else 'false'}")
+    L.append("/-- keyword table of the scanner (lexact.c): (word, token) -/")
+    L.append("def scannerKeywords : List (String × String) := " + _llist([f"({_lstr(a)}, {_lstr(b)})" for a, b in kwtab]))
+    L.append("/-- operator and punctuation rules of the scanner (expscan.l): (spelling, token) -/")
+    L.append("def scannerSymbols : List (String × String) := " + _llist([f"({_lstr(a)}, {_lstr(b)})" for a, b in symtab]))
     L.append(f"def nestingIndent : Nat := {nesting}")
     L.append(f"def continuationIndent : Nat := {cont}")
     L.append(f"def defaultLineLength : Nat := {ll}")
